@@ -217,7 +217,7 @@ fn run_once(case: &Case) -> Result<Measured, String> {
     // "still not back", not as a stuck check
     std::thread::spawn(move || {
         attohttpc::verif_hooks::set_resolver(Some(Box::new(move |d, _| if d == "race.test" { Some(addrs.clone()) } else { None })));
-        let mut rb = attohttpc::get(url).proxy_settings(no_proxy()).connect_timeout(Duration::from_millis(connect_ms as u64)).read_timeout(Duration::from_secs(3));
+        let mut rb = attohttpc::get(url).proxy_settings(no_proxy()).connect_timeout(if connect_ms == u16::MAX { Duration::MAX } else { Duration::from_millis(connect_ms as u64) }).read_timeout(Duration::from_secs(3));
         rb = match deadline {
             1 => rb.timeout(Duration::from_millis(0)),
             2 => rb.timeout(Duration::from_millis(100)),
@@ -235,7 +235,7 @@ fn run_once(case: &Case) -> Result<Measured, String> {
         attohttpc::verif_hooks::set_resolver(None);
         let _ = tx.send((result, elapsed_ms));
     });
-    let patience = case.addrs.len() as u64 * case.connect_ms as u64 + 6000;
+    let patience = if case.connect_ms == u16::MAX { 6000 } else { case.addrs.len() as u64 * case.connect_ms as u64 + 6000 };
     let m = match rx.recv_timeout(Duration::from_millis(patience)) {
         Ok((result, elapsed_ms)) => Measured { result, elapsed_ms, hung: false },
         Err(_) => Measured { result: Err("the call had not returned".into()), elapsed_ms: patience as i64, hung: true },
@@ -248,7 +248,7 @@ impl Property for C17 {
     type Case = Case;
     const ID: &'static str = "C17";
     const RULE: &'static str = "generated address lists (0..3 IPv6 [::1]:p and 0..3 IPv4 127.0.0.x:p in generated resolver order) with a behaviour per address {accept, refuse (bound, not listening), black hole (backlog-0 listener with its \
-queue full), late accept (black hole that starts accepting after 300 ms)}, connect timeout {100 (below the stagger; without deadline), 600, 900, 1800} ms and overall deadline {none, expired, 100 ms, 500 ms, 2 s}; real sockets; oracle = event simulation of the described race (IPv6 first, alternating, 200 ms stagger): success iff an accepting address is reached, the \
+queue full), late accept (black hole that starts accepting after 300 ms)}, connect timeout {100 (below the stagger; without deadline), 600, 900, 1800} ms or Duration::MAX (with refusing / accepting addresses only) and overall deadline {none, expired, 100 ms, 500 ms, 2 s}; real sockets; oracle = event simulation of the described race (IPv6 first, alternating, 200 ms stagger): success iff an accepting address is reached, the \
 winner accepts (and is the only acceptor when there is one), error when none accepts, firm lower bound 200 ms per black hole before the first acceptor, upper bound simulated time + 300 ms re-measured up to 3 times. thorough enumerates all lists with <= 2 \
 addresses per family. non-trivial = >= 2 addresses with >= 2 different behaviours; distinct by case";
 
@@ -314,6 +314,18 @@ addresses per family. non-trivial = >= 2 addresses with >= 2 different behaviour
             all.push(Case { addrs: vec![(v6_first, Beh::BlackHole), (!v6_first, Beh::BlackHole), (v6_first, Beh::Accept)], connect_ms: 100, deadline: 0, literal: false });
             all.push(Case { addrs: vec![(v6_first, Beh::BlackHole), (!v6_first, Beh::Refuse), (v6_first, Beh::BlackHole)], connect_ms: 100, deadline: 0, literal: false });
         }
+        // a deadline closer than one race interval: a refusal still lets the next address be tried at once
+        for v6_first in [true, false] {
+            all.push(Case { addrs: vec![(v6_first, Beh::Refuse), (!v6_first, Beh::Accept)], connect_ms: 600, deadline: 2, literal: false });
+            all.push(Case { addrs: vec![(v6_first, Beh::Refuse), (v6_first, Beh::Accept)], connect_ms: 600, deadline: 2, literal: false });
+        }
+        // the largest representable connect timeout ("never give up on my account"): refusals and acceptances are as prompt as ever
+        for v6_first in [true, false] {
+            all.push(Case { addrs: vec![(v6_first, Beh::Refuse), (!v6_first, Beh::Accept)], connect_ms: u16::MAX, deadline: 0, literal: false });
+            all.push(Case { addrs: vec![(v6_first, Beh::Refuse), (v6_first, Beh::Refuse), (!v6_first, Beh::Refuse)], connect_ms: u16::MAX, deadline: 0, literal: false });
+            all.push(Case { addrs: vec![(v6_first, Beh::Accept)], connect_ms: u16::MAX, deadline: 0, literal: true });
+            all.push(Case { addrs: vec![(v6_first, Beh::Accept), (!v6_first, Beh::Refuse)], connect_ms: u16::MAX, deadline: 3, literal: false });
+        }
         // the URL names an address as an IP literal: the connect timeout (and the deadline) bound that single attempt as well
         for v6 in [true, false] {
             for beh in [Beh::Accept, Beh::Refuse, Beh::BlackHole] {
@@ -344,7 +356,7 @@ addresses per family. non-trivial = >= 2 addresses with >= 2 different behaviour
         Some(Box::new(
             all.into_iter()
                 .enumerate()
-                .filter(move |(i, c)| i % stride == 0 || c.literal || c.connect_ms < 200)
+                .filter(move |(i, c)| i % stride == 0 || c.literal || c.connect_ms < 200 || c.connect_ms == u16::MAX || (c.deadline == 2 && c.addrs.len() == 2 && c.addrs[0].1 == Beh::Refuse))
                 .map(|(_, c)| c)
                 .enumerate()
                 .filter(move |(i, _)| i % nworkers == worker)
